@@ -104,7 +104,7 @@ Qed.
 
 Lemma noleak_step fl n e : noleak n -> noleak (nstep fl n e).
 Proof.
-  intros HN. destruct e as [s ks|k|i|k]; cbn [nstep].
+  intros HN. destruct e as [s ks|k|i| |k]; cbn [nstep].
   - (* start *)
     intros s' k' Hk. cbn [n_reqs n_sw] in *.
     assert (Hold : forall s0 k0, waits (n_reqs n) (length (n_reqs n)) s0 k0 ->
@@ -152,6 +152,7 @@ Proof.
     + destruct (HN s' k' Hk) as (j & r & H1 & _ & H3 & H4 & H5).
       destruct (Nat.eq_dec j i) as [->|Hji]; [|eapply Hother; eauto].
       rewrite Ei in H1. injection H1 as <-. apply Nat.eqb_neq in Es. congruence.
+  - exact HN.
   - (* late want *)
     destruct (f_late_want fl && negb (nmem k (wantlist n))); exact HN.
 Qed.
@@ -163,7 +164,7 @@ Definition nostarve (n : node) : Prop :=
 
 Lemma nostarve_step fl n e : f_shared_cancel fl = false -> nostarve n -> nostarve (nstep fl n e).
 Proof.
-  intros Hfl HN. destruct e as [s ks|k|i|k]; cbn [nstep].
+  intros Hfl HN. destruct e as [s ks|k|i| |k]; cbn [nstep].
   - (* start *)
     intros j r k Hj Hd Hk. cbn [n_reqs n_sw] in *.
     destruct (Nat.lt_ge_cases j (length (n_reqs n))) as [Hlt|Hge].
@@ -196,15 +197,17 @@ Proof.
       apply negb_true_iff, nmem_false. intros Hg. unfold ndiff in Hg. apply filter_In in Hg. destruct Hg as [_ Hg].
       apply negb_true_iff, nmem_false in Hg. apply Hg. apply others_wait_waits.
       exists j, r. rewrite <- Es. auto.
+  - exact HN.
   - destruct (f_late_want fl && negb (nmem k (wantlist n))); exact HN.
 Qed.
 
 Lemma stale_step fl n e : f_late_want fl = false -> n_stale n = [] -> n_stale (nstep fl n e) = [].
 Proof.
-  intros Hfl H. destruct e as [s ks|k|i|k]; cbn [nstep].
+  intros Hfl H. destruct e as [s ks|k|i| |k]; cbn [nstep].
   - exact H.
   - destruct (nmem k (wantlist n)); exact H.
   - destruct (nth_error (n_reqs n) i) as [ri|]; [|exact H]. destruct (q_done ri); exact H.
+  - exact H.
   - rewrite Hfl. exact H.
 Qed.
 
